@@ -158,8 +158,10 @@ type Stmt struct {
 	SQL   string `json:"sql"` // with {T<i>} for table names and ? placeholders
 	Args  []Lit  `json:"args,omitempty"`
 	// classes for labels / signatures
-	Where   string   `json:"where,omitempty"`   // shape of the WHERE clause
-	Classes []string `json:"classes,omitempty"` // e.g. string-literal-in-where, key-assignment, multi-row, literal+param mix
+	SetCols []string `json:"set_cols,omitempty"` // columns assigned by UPDATE / ON DUPLICATE KEY UPDATE
+	InsCols []string `json:"ins_cols,omitempty"` // column list of an INSERT ("" list = all columns)
+	Where   string   `json:"where,omitempty"`    // shape of the WHERE clause
+	Classes []string `json:"classes,omitempty"`  // e.g. string-literal-in-where, key-assignment, multi-row, literal+param mix
 }
 
 // Text substitutes table names.
@@ -353,6 +355,8 @@ func DrawTable(t *rapid.T, idx int) TableSpec {
 // ---- statements ------------------------------------------------------------------------------
 
 type sqlBuilder struct {
+	insCols []string
+	setCols []string
 	t       *rapid.T
 	sb      strings.Builder
 	args    []Lit
@@ -582,6 +586,7 @@ func DrawStmt(t *rapid.T, tables []TableSpec, opt StmtOptions) Stmt {
 				names[i] = c.Name
 			}
 			b.sb.WriteString(" (" + strings.Join(names, ", ") + ")")
+			b.insCols = names
 		}
 		b.sb.WriteString(" VALUES ")
 		nr := 1
@@ -659,6 +664,7 @@ func DrawStmt(t *rapid.T, tables []TableSpec, opt StmtOptions) Stmt {
 					b.sb.WriteString(", ")
 				}
 				c := nonKey[(i+rapid.IntRange(0, len(nonKey)-1).Draw(t, "upCol"))%len(nonKey)]
+				b.setCols = append(b.setCols, c.Name)
 				b.sb.WriteString(c.Name + " = ")
 				switch rapid.IntRange(0, 2).Draw(t, "upExpr") {
 				case 0:
@@ -691,6 +697,7 @@ func DrawStmt(t *rapid.T, tables []TableSpec, opt StmtOptions) Stmt {
 				b.sb.WriteString(", ")
 			}
 			first = false
+			b.setCols = append(b.setCols, c.Name)
 			b.sb.WriteString(c.Name + " = ")
 			if (c.Base == "INT" || c.Base == "BIGINT" || c.Base == "DECIMAL" || c.Base == "DOUBLE") && rapid.IntRange(0, 2).Draw(t, "arith") == 0 {
 				b.sb.WriteString(c.Name + rapid.SampledFrom([]string{" + 1", " - 1", " + 10"}).Draw(t, "arithOp"))
@@ -702,6 +709,7 @@ func DrawStmt(t *rapid.T, tables []TableSpec, opt StmtOptions) Stmt {
 		if !opt.NoKeyAssignment && rapid.IntRange(0, 11).Draw(t, "keyAssign") == 0 {
 			c := tb.col(tb.PK[0])
 			b.sb.WriteString(", " + c.Name + " = ")
+			b.setCols = append(b.setCols, c.Name)
 			b.val(b.freshKey(tb, *c, 7), false)
 			b.classes["key-assignment"] = true
 		}
@@ -719,7 +727,7 @@ func DrawStmt(t *rapid.T, tables []TableSpec, opt StmtOptions) Stmt {
 			b.sb.WriteString(" FOR UPDATE")
 		}
 	}
-	st := Stmt{Kind: kind, Table: ti, SQL: b.sb.String(), Args: b.args, Where: strings.Join(shape, ",")}
+	st := Stmt{Kind: kind, Table: ti, SQL: b.sb.String(), Args: b.args, Where: strings.Join(shape, ","), SetCols: b.setCols, InsCols: b.insCols}
 	for c := range b.classes {
 		st.Classes = append(st.Classes, c)
 	}
